@@ -54,4 +54,15 @@ theorem ite_some_of_true {α} {b : Bool} {x : α} (h : b = true) :
     (if b = true then some x else none) = some x := by
   simp [h]
 
+theorem timeAddDur_nonneg (t : Nat) (d : Int) (h : 0 ≤ (t : Int) + d) :
+    timeAddDur t d = if inU128 ((t : Int) + d) = true then some ((t : Int) + d).toNat else none := by
+  unfold timeAddDur
+  dsimp only
+  rw [if_neg (by omega)]
+
+theorem timeAddDur_neg (t : Nat) (d : Int) (h : (t : Int) + d < 0) : timeAddDur t d = some 0 := by
+  unfold timeAddDur
+  dsimp only
+  rw [if_pos h]
+
 end Statime
